@@ -22,6 +22,8 @@ AliveFaithful == [][act'.e = "is_alive" => (act'.ret <=> (phase' = "running"))]_
 JoinWithinTimeout == [][act'.e = "join_timed" => (act'.intime /\ (act'.joined <=> phase' = "ended"))]_vars
 JoinReturnsWhenEnded == [][act'.e = "join" => (act'.joined /\ phase' = "ended")]_vars
 NotActiveAfterJoin == [][act'.e = "active" => (act'.ret <=> (phase' = "running"))]_vars
+(* the observation calls themselves (exitcode, is_alive, join, active_children) never raise *)
+ObservationsAnswer == [][act'.e # "api_error"]_vars
 StartOnce == [][act'.e = "start_again" => act'.ret = "refused"]_vars
 StartOnlyByCreator == [][act'.e = "start_in_child" => act'.ret = "refused"]_vars
 =============================================================================
